@@ -22,6 +22,7 @@ ASSUMPTIONS = [
   "oracle: vt/irref.py, a bit-level dataflow evaluator that shares no code with pymtl3; its fixed point is "
   "re-derived in reverse block order for every settle as a self-check",
   "linear extensions are capped per design (cap reported); flip-flop permutations capped at 24",
+  "the five pass groups see every input vector/sequence; the per-extension sweeps use a fixed evenly spread subset of 12 (48 thorough) sequences",
   "all inputs of a design are enumerated over their full range; sequences of length L start from the state "
   "left by the previous sequence (the reference is kept in lock step), so non-initial states are covered",
 ]
@@ -70,6 +71,14 @@ def sequences(d, tier):
     step = max(1, len(letters) // keep)
     letters = letters[::step] + ([letters[-1]] if uses_reset(d) else [])
   return [list(s) for s in itertools.product(letters, repeat=L)]
+
+
+def thin(seqs, n):
+  """A fixed, evenly spread subset of the input sequences (deterministic, never sampled), used for
+  the per-schedule sweeps; it walks through the list so that consecutive inputs differ."""
+  if len(seqs) <= n: return seqs
+  step = len(seqs) / n
+  return [seqs[int(i * step)] for i in range(n)]
 
 
 def blk_key(top, blk):
@@ -177,13 +186,16 @@ def check_design(name, d, tier, acc, only=None):
     V, E, FF = graph(dut)
     cap = EXT_CAP[tier]
     exts = list(linear_extensions(V, E, cap + 1))
-    if len(exts) > cap:
+    capped = len(exts) > cap
+    if capped:
       exts = exts[:cap]; acc.count("ext_cap_hits")
     ffperms = list(itertools.islice(itertools.permutations(FF), 24))
     if len(FF) > 4: acc.count("ffperm_cap_hits")
     ref = irref.RefSim(d)
     ref.state = dict(dut.obs())
     first = True
+    full_seqs = seqs
+    seqs = thin(seqs, 12 if tier == "quick" else 48)
     for ext in exts:
       for fp in (ffperms if first or len(exts) <= 12 else ffperms[:2] + ffperms[-1:]):
         install(dut, ext, fp)
@@ -200,7 +212,7 @@ def check_design(name, d, tier, acc, only=None):
       install(dut, list(reversed(exts[0])), ffperms[0])
       ref.state = dict(dut.obs())
       probe = Acc()
-      lockstep(dut, ref, seqs[:64], "probe", probe, {})
+      lockstep(dut, ref, seqs, "probe", probe, {})
       sensitive = bool(probe.violations)
     if sensitive:
       acc.add("order_sensitive", name)
@@ -208,7 +220,7 @@ def check_design(name, d, tier, acc, only=None):
   finally:
     dut.close()
   # --- 4. every schedule SimpleSchedulePass itself can emit (shuffle seam), small graphs only
-  if len(exts) <= (24 if tier == "quick" else 120):
+  if not capped and len(exts) <= (24 if tier == "quick" else 120):
     emitted = set()
 
     def run(cr):
@@ -216,7 +228,7 @@ def check_design(name, d, tier, acc, only=None):
       try:
         order = tuple(blk_key(dd.top, b) for b in dd.top._sched.update_schedule)
         r = irref.RefSim(d)
-        lockstep(dd, r, seqs[:16], "simple-seam", acc, dict(base, mode="seam", choices=[p[1] for p in cr.points]))
+        lockstep(dd, r, seqs, "simple-seam", acc, dict(base, mode="seam", choices=[p[1] for p in cr.points]))
       finally:
         dd.close()
       return order
